@@ -15,7 +15,7 @@ pub const DEF: PropDef = PropDef {
     run,
     replay,
     level: "exploration",
-    rule: "cases = (protocol name, suite, backend pair, payload length per handshake message in 0..=max, transport script of up to 30 messages with direction interleaving, stateful/stateless per side, stateless nonce choice and delivery order, how the PSKs reach each side: at build time, or by set_psk just before the first message that needs them on the initiator only / the responder only / both); static keys come from Builder::generate_keypair and ephemerals from the library's own OS RNG (recorded); non-trivial = session finished on both sides and at least one transport message delivered; distinct by (name, suite, payload length vector, transport script)",
+    rule: "cases = (protocol name, suite, backend pair, payload length per handshake message in 0..=max, transport script of up to 30 messages with direction interleaving, stateful/stateless per side, stateless nonce choice and delivery order, whether the peer's true static key is ALSO supplied up front where the pattern transmits it (pinning), how the PSKs reach each side: at build time, or by set_psk just before the first message that needs them on the initiator only / the responder only / both); static keys come from Builder::generate_keypair and ephemerals from the library's own OS RNG (recorded); non-trivial = session finished on both sides and at least one transport message delivered; distinct by (name, suite, payload length vector, transport script)",
     technique: "round-trip property over generated honest sessions with real randomness (proptest + name-space enumeration); pattern message counts from an independent table",
     assumptions: &["the number of messages per pattern is taken from the harness's own transcription of the specification's pattern table"],
     panic_is_violation: true,
@@ -112,13 +112,19 @@ pub fn oracle(c: &Case, acc: &mut Acc) -> CaseResult {
     // the first message whose pattern has that psk token - on one side only or on both
     let late_mode = if c.psks.is_empty() { 0 } else { (c.fill / 7) % 4 };
     let (late_i, late_r) = (late_mode == 1 || late_mode == 3, late_mode == 2 || late_mode == 3);
+    let pin_rs = (c.fill / 29) % 3 == 1;
+    if pin_rs {
+        acc.label("remote_static:pinned_although_transmitted");
+    }
     let build = |init: bool| -> Result<snow::HandshakeState, Fail> {
         let (me, peer, be, rng) = if init { (&ki, &kr, c.backend_i, &rng_i) } else { (&kr, &ki, c.backend_r, &rng_r) };
         let mut b = snow::Builder::with_resolver(params(&name)?, Box::new(VResolver::new(be, Some(rng.clone()), None)));
         if pat.role_uses_static(init) {
             b = b.local_private_key(&me.private).map_err(|e| Fail::new(format!("{e:?}")))?;
         }
-        if pat.role_needs_remote_static(init) {
+        if pat.role_needs_remote_static(init) || (pin_rs && pat.role_uses_static(!init)) {
+            // `pin_rs`: the application also supplies the peer's TRUE static key where the pattern
+            // transmits it anyway (key pinning) - consistent keys in the sense of the statement
             b = b.remote_public_key(&peer.public).map_err(|e| Fail::new(format!("{e:?}")))?;
         }
         if !prologue.is_empty() {
